@@ -16,7 +16,8 @@ ASSUMPTIONS = [
     "the sub-scan = restricted-root-scan law is judged for projects whose absolute imports are root-qualified or "
     "relative (Trace_Scan 'restrict'); names written relative to module_path's parent are checked to resolve by the "
     "direct scan clause (Scan!Adjust)",
-    "the module-object entry point is driven with module objects whose __file__ points into the project",
+    "the module-object entry point is driven with module objects whose __file__ points into the project and whose "
+    "__name__ is the qualified name, the last component only, or an unrelated alias (what counts is the file)",
     "imports are judged as must <= observed <= may (Scan!MustImports / MayImports)",
 ]
 
@@ -40,8 +41,8 @@ def episode_for(project, rng, all_subs=False):
     for d in chosen:
         sd = ep.scan(mpath=d)
         ep.law("restrict", [s0, sd])
-        if rng.random() < 0.3:
-            sdm = ep.scan(mpath=d, entry="module")
+        if rng.random() < 0.4:
+            sdm = ep.scan(mpath=d, entry="module", modname=rng.choice(["qualified", "last", "alias"]))
             ep.law("entry", [sd, sdm])
     s9 = ep.scan()                      # the root once more, after all the sub scans
     ep.law("same", [s0, s9])
